@@ -192,9 +192,9 @@ pub fn cell_to_children(index: u64, child_resolution: Option<i32>) -> Result<Vec
         ));
     }
 
-    // If target resolution equals current resolution, return the original cell
+    // If target resolution equals current resolution, return the original cell (in canonical form)
     if new_resolution == current_resolution {
-        return Ok(vec![index]);
+        return Ok(vec![serialize(&cell)?]);
     }
 
     let mut new_origin_ids = vec![origin_id];
@@ -273,7 +273,7 @@ pub fn cell_to_parent(index: u64, parent_resolution: Option<i32>) -> Result<u64,
     }
 
     if new_resolution == current_resolution {
-        return Ok(index);
+        return serialize(&cell);
     }
 
     let resolution_diff = current_resolution - new_resolution;
